@@ -189,7 +189,11 @@ def check_one(spec, v, sa, sb, opname, swap, detours=("none", "none")):
     # (what is realised in the operands is read BEFORE the operation: a successful += creates instances)
     dpath0, kind_differs0 = first_difference(spec, v["spec"])
     where0 = parent_path(dpath0) if kind_differs0 and dpath0 else dpath0
-    realised = bool(walk.instances(a, spec, where0)) and bool(walk.instances(b, v["spec"], where0))
+    ia, ib = bool(walk.instances(a, spec, where0)), bool(walk.instances(b, v["spec"], where0))
+    # ... or in the right operand and in the LEFT operand's value template: a live sparse container checks every bin it
+    # takes over against its template (`template.zero() + bin`), also while it has no bin of its own yet
+    spec_l, spec_r = (v["spec"], spec) if swap else (spec, v["spec"])
+    realised = (ia and ib) or (bool(walk.instances(right, spec_r, where0)) and bool(walk.instances(left, spec_l, where0, templates=True)))
     raised = None
     try:
         op(left, right)
